@@ -3,6 +3,7 @@
 //! the registry and calls `gencase::main`.
 
 pub mod ops;
+pub mod pbchecks;
 pub mod sem;
 
 use std::sync::OnceLock;
